@@ -117,6 +117,13 @@ def frame_kinds(dll):
             k.append(('FD.TP.CM %d' % c, 0x4D, [c, 150, 0, 0, 3, 0, 0, 255, 0] + pgn, 'proto'))
         k.append(('FD.TP.DT', 0x4E, [0, 1, 0, 0] + [9] * 60, 'proto'))
         k.append(('multi-PG', 0x25, [0x40, 0xD0, 0x00, 4, 1, 2, 3, 4], 'ord'))
+        # several contained groups (each listener bound to the frame's destination gets every one of them): a PDU2 group
+        # alone, in front of and between PDU1 groups
+        g1 = [0x40, 0xD0, 0x00, 2, 1, 2]
+        g2 = [0x40, 0xFF, 0x12, 3, 7, 8, 9]
+        k.append(('multi-PG (PDU2 group)', 0x25, g2 + [0, 0, 0, 0xAA, 0xAA], 'ord1'))
+        k.append(('multi-PG (PDU2, PDU1 groups)', 0x25, g2 + g1 + [0, 0, 0], 'ord2'))
+        k.append(('multi-PG (PDU1, PDU2, PDU1 groups)', 0x25, g1 + g2 + g1, 'ord3'))
         k.append(('TP.CM on FD', 0xEC, [16, 20, 0, 3, 255] + pgn, 'proto'))
     return k
 
@@ -174,6 +181,9 @@ def eval_frame(c, name, pf, da, sa, data, cls, acc, sc, flags=None):
                 bound = pred(da)
             if not bound and n:
                 probs.append("%s: listener %s is not bound to the destination but was called" % (what, kindname(kind)))
+            want_n = int(cls[3:]) if cls.startswith('ord') and len(cls) > 3 else 1
+            if cls.startswith('ord') and len(cls) > 3 and bound and n != want_n:
+                probs.append("%s: listener %s is bound to the destination and was called %d times for %d contained groups" % (what, kindname(kind), n, want_n))
             if cls in ('ord', 'pdu2') and bound and n != 1:
                 probs.append("%s: listener %s is bound to the destination and was called %d times" % (what, kindname(kind), n))
     key = (sc['dll'], sc['cfg'], name, da, sa, flags)
